@@ -57,6 +57,11 @@ func runC18(c *Ctx, _ []string) {
 			{cfg: sCfg{"TEXT+UTF+EXE+PACK+MM+ROLZ", "NONE", 65536, 3, 0, 0, false}, shape: "mm", size: 250000, rjobs: 16},
 			{cfg: sCfg{"TEXT+UTF+PACK+MM+LZX", "HUFFMAN", 65536, 4, 32, 0, false}, shape: "b64", size: 250000, rjobs: 4},
 			{cfg: sCfg{"ROLZX", "RANGE", 65536, 2, 32, 0, false}, shape: "text", size: 150000, rjobs: 2},
+			// blocks larger than the 256 KiB floor of the writer's input buffers, chains whose worst case exceeds the buffer
+			// (the task enlarges its own input buffer), at least 3 blocks per batch
+			{cfg: sCfg{"TEXT+UTF+EXE+PACK+MM+ROLZ", "NONE", 262144, 4, 32, 0, false}, shape: "mm", size: 1200000, rjobs: 4},
+			{cfg: sCfg{"EXE+LZ", "HUFFMAN", 524288, 3, 32, 0, false}, shape: "exe", size: 1700000, rjobs: 3},
+			{cfg: sCfg{"EXE+RLT+TEXT+UTF+DNA", "NONE", 262144, 3, 0, 1000000, false}, shape: "text", size: 1000000, rjobs: 2},
 			{cfg: sCfg{"BWTS+MTFT", "ANS1", 16384, 5, 64, 0, false}, shape: "skewed", size: 100000, rjobs: 7},
 			{cfg: sCfg{"TEXT", "NONE", 4096, 8, 32, 0, false}, shape: "accent", size: 60000, rjobs: 16},
 			// one block above the 4 MiB threshold of the inverse BWT, decoded with more jobs than blocks
